@@ -475,7 +475,7 @@ func genCase(t *rapid.T) Case {
 func classify(c Case, msg string) string { return "" }
 
 func TestPropReporting(t *testing.T) {
-	ev.Check(t, ev.N{Quick: 60, Thorough: 6000}, func(t *rapid.T) {
+	ev.Check(t, ev.N{Quick: 60, Thorough: 2400}, func(t *rapid.T) {
 		n := rapid.IntRange(20, 40).Draw(t, "ncases")
 		cases := make([]Case, n)
 		var gsrcs []string
